@@ -394,6 +394,9 @@ def run_property(pid: str, tier: str, seed: int, replay: str | None = None) -> i
     scratch_root = os.environ.get("VERIF_SCRATCH") or tempfile.gettempdir()
     scratch = Path(tempfile.mkdtemp(prefix=f"verif-{pid}-", dir=scratch_root))
     ctx = Ctx(pid=pid, tier=tier, seed=seed, scratch=scratch, rng=random.Random(f"{pid}:{seed}"))
+    # private persistent hash cache per run (Submitter.__call__ walks this directory on every submission)
+    (scratch / "_hashcache").mkdir(exist_ok=True)
+    os.environ.setdefault("PYDRA_HASH_CACHE", str(scratch / "_hashcache"))
     obligations: list[str] = list(getattr(mod, "OBLIGATIONS", []))
     targets: list[str] = list(getattr(mod, "LEAN_TARGETS", [f"PydraModel.Props.{pid}"]))
     proof_state = {"build_ok": False, "log": "", "audit": {}, "forbidden": [], "gen_digest": None}
